@@ -35,22 +35,23 @@ fn here_stub() -> CompilerSourceRange { CompilerSourceRange { file: "", line: 0 
 #[cfg_attr(kani, kani::proof)]
 pub(crate) fn vkc07_opcode_from_u8() {
     let b: u8 = vk::any();
-    let known = [0x01u8, 0x10, 0x20, 0x30, 0x40, 0x50, 0x60, 0xFF];
-    let is_known = b == 0x01 || b == 0x10 || b == 0x20 || b == 0x30 || b == 0x40 || b == 0x50 || b == 0x60 || b == 0xFF;
+    // the discriminants the enum OpCode DECLARES in the current source (substituted by units/C07.py on every run)
+    let is_known = /*@OPCODE_KNOWN@*/;
     vk::reach();
     match OpCode::from_u8(b) {
-        Some(op) => { assert!(is_known, "VK: unknown opcode byte must map to None"); assert!(op as u8 == b, "VK: OpCode::from_u8(op as u8) == Some(op)"); }
-        None => assert!(!is_known, "VK: every defined opcode byte decodes"),
+        Some(op) => { assert!(is_known, "VK: a byte that is no declared opcode must map to None"); assert!(op as u8 == b, "VK: OpCode::from_u8(op as u8) == Some(op)"); }
+        None => assert!(!is_known, "VK: every declared opcode byte decodes"),
     }
 }
 
 #[cfg_attr(kani, kani::proof)]
 pub(crate) fn vkc07_typetag_from_u16() {
     let t: u16 = vk::any();
+    let is_known = /*@TYPETAG_KNOWN@*/;
     vk::reach();
     match TypeTag::from_u16(t) {
-        Some(tag) => { assert!(tag as u16 == t, "VK: TypeTag::from_u16(t) == Some(tag) implies tag as u16 == t"); assert!(t >= 1 && t <= 48, "VK: tag range"); }
-        None => assert!(t == 0 || t > 48, "VK: every defined type tag decodes"),
+        Some(tag) => { assert!(tag as u16 == t, "VK: TypeTag::from_u16(t) == Some(tag) implies tag as u16 == t"); assert!(is_known, "VK: a number that is no declared type tag must map to None"); }
+        None => assert!(!is_known, "VK: every declared type tag decodes"),
     }
 }
 
